@@ -2,6 +2,7 @@ package conc
 
 import (
 	"fmt"
+	"os"
 	"sort"
 	"strings"
 	"testing"
@@ -52,12 +53,100 @@ func genSchedule(t *rapid.T, n int) []int {
 	return rapid.SliceOfN(rapid.IntRange(0, n-1), 0, 120).Draw(t, "schedule")
 }
 
+// genStarve: a directed (strict) schedule. A victim runs `lead` steps, then every other participant in
+// turn runs to completion, the victim getting a drawn number of steps after each: the victim's commit is
+// beaten again and again, so it goes through several refetch-and-merge passes.
+func genStarve(t *rapid.T, n int) []int {
+	v := rapid.IntRange(0, n-1).Draw(t, "victim")
+	var others []int
+	for i := 0; i < n; i++ {
+		if i != v {
+			others = append(others, i)
+		}
+	}
+	var s []int
+	rep := func(who, k int) {
+		for j := 0; j < k; j++ {
+			s = append(s, who)
+		}
+	}
+	rep(v, rapid.IntRange(0, 60).Draw(t, "lead"))
+	for i, o := range rapid.Permutation(others).Draw(t, "order") {
+		// let the other one do its operations first (it stops being scheduled once it is finished)
+		rep(o, 400)
+		rep(v, rapid.IntRange(0, 80).Draw(t, fmt.Sprintf("gap%d", i)))
+	}
+	return s
+}
+
+var segMarkers = []string{"", "Commit.begin", "StoreRepository.GetWithTTL", "L2.Lock", "L2.DualLock", "Registry.Get", "Registry.UpdateNoLocks#", "Registry.UpdateNoLocksFlip", "StoreRepository.Update", "PLog.Add", "BlobStore.Add"}
+
+// genDirected draws a directed schedule (see txh.Seg): either the "beaten twice" template - a victim does its
+// operations, another writer commits, the victim runs up to (or a few calls past) the end of its first
+// refetch-and-merge pass, a third writer commits, the victim goes on - or a random list of segments.
+func genDirected(t *rapid.T, n int) []txh.Seg {
+	var segs []txh.Seg
+	if n >= 3 && rapid.Bool().Draw(t, "beatenTwice") {
+		order := rapid.Permutation(intsTo(n)).Draw(t, "order")
+		v, b, c := order[0], order[1], order[2]
+		segs = append(segs, txh.Seg{P: v, Until: "Commit.begin"})
+		if rapid.Bool().Draw(t, "othersOpsFirst") {
+			segs = append(segs, txh.Seg{P: c, Until: "Commit.begin"})
+		}
+		segs = append(segs, txh.Seg{P: b})
+		segs = append(segs, txh.Seg{P: v, Until: "StoreRepository.GetWithTTL"})
+		segs = append(segs, txh.Seg{P: v, Until: rapid.SampledFrom([]string{"L2.Lock", "L2.Lock", "L2.DualLock", "Registry.Get"}).Draw(t, "stopAt")})
+		if k := rapid.IntRange(0, 6).Draw(t, "extra"); k > 0 {
+			segs = append(segs, txh.Seg{P: v, N: k})
+		}
+		segs = append(segs, txh.Seg{P: c})
+		return segs
+	}
+	k := rapid.IntRange(2, 8).Draw(t, "segments")
+	for i := 0; i < k; i++ {
+		g := txh.Seg{P: rapid.IntRange(0, n-1).Draw(t, fmt.Sprintf("seg%d.p", i)), Until: rapid.SampledFrom(segMarkers).Draw(t, fmt.Sprintf("seg%d.until", i))}
+		if rapid.IntRange(0, 2).Draw(t, fmt.Sprintf("seg%d.bounded", i)) == 0 {
+			g.N = rapid.IntRange(1, 30).Draw(t, fmt.Sprintf("seg%d.n", i))
+		}
+		segs = append(segs, g)
+	}
+	return segs
+}
+
+func renderSegs(g []txh.Seg) string {
+	var out []string
+	for _, x := range g {
+		out = append(out, x.String())
+	}
+	return strings.Join(out, " ")
+}
+
 func renderSched(s []int) string {
 	var sb strings.Builder
 	for _, x := range s {
 		fmt.Fprintf(&sb, "%d", x)
 	}
 	return sb.String()
+}
+
+// renderSchedRLE renders a schedule run-length encoded ("0x12 1x400 0x7").
+func renderSchedRLE(s []int) string {
+	var sb strings.Builder
+	for i := 0; i < len(s); {
+		j := i
+		for j < len(s) && s[j] == s[i] {
+			j++
+		}
+		if j-i > 3 {
+			fmt.Fprintf(&sb, " %dx%d ", s[i], j-i)
+		} else {
+			for k := i; k < j; k++ {
+				fmt.Fprintf(&sb, "%d", s[i])
+			}
+		}
+		i = j
+	}
+	return strings.TrimSpace(sb.String())
 }
 
 func renderProgs(p []txh.TxnProg) string {
@@ -74,6 +163,7 @@ func TestC04_DisjointWritersBothCommit(t *testing.T) {
 		"2-3 writer transactions on one pre-seeded unique store with pairwise DISJOINT key sets (adds of new keys, updates and removes of distinct seeded keys), drawn so that they land in different leaves, the same leaf, overflow the same leaf (both split it) or empty it; slot length 2-8; the transactions run one at a time under a generated schedule that can switch at every backend call of the transaction manager (PCT-style few-preemption schedules and dense ones); maxTime 15 s; oracle: every Commit returns nil and the final fresh-reader dump equals the seed plus the union of the changes, Count included; non-trivial = some writer went through refetch-and-merge or was refused a node lock; distinct by programs + schedule",
 		"README: concurrent first commits into an empty store are unsupported, so the store is pre-seeded in a separate transaction", "in-process transactions sharing the in-memory L2 cache (standalone mode)")
 	knownStale := stats.Known("C04", "tracked-item-pointer-stale-after-slot-shift")
+	knownMixture := stats.Known("C04", "merge-pass-mixture-commits-misplaced-key")
 	rapid.Check(t, func(t *rapid.T) {
 		slot := rapid.SampledFrom([]int{2, 2, 4, 4, 6, 8}).Draw(t, "slot")
 		placement := rapid.SampledFrom([]int{0, 0, 1, 2, 3, 4}).Draw(t, "placement")
@@ -122,7 +212,18 @@ func TestC04_DisjointWritersBothCommit(t *testing.T) {
 				}
 			}
 		}
-		schedule := genSchedule(t, nw)
+		mode := rapid.IntRange(0, 5).Draw(t, "scheduleMode") // 0,1 starve; 2,3 directed; else free-form
+		strict := mode <= 1
+		var schedule []int
+		var directed []txh.Seg
+		switch {
+		case strict:
+			schedule = genStarve(t, nw)
+		case mode <= 3:
+			directed = genDirected(t, nw)
+		default:
+			schedule = genSchedule(t, nw)
+		}
 		uuidSeed := rapid.Uint64().Draw(t, "uuidSeed")
 		hashMod := rapid.SampledFrom([]int{1, 3, 16}).Draw(t, "hashMod")
 
@@ -136,8 +237,8 @@ func TestC04_DisjointWritersBothCommit(t *testing.T) {
 		if err != nil {
 			t.Fatalf("HARNESS-ERROR %v", err)
 		}
-		res, s := e.RunConcurrent(stores, progs, schedule, txh.ConcOpts{GateCommits: knownSnapshot, MaxTime: 15 * time.Second, Budget: 90 * time.Second})
-		desc := fmt.Sprintf("slot=%d %s seed=%v %s schedule=%s", slot, txh.PlacementNames[placement], seed, renderProgs(progs), renderSched(schedule))
+		res, s := e.RunConcurrent(stores, progs, schedule, txh.ConcOpts{GateCommits: knownSnapshot, Strict: strict, Directed: directed, MaxTime: 15 * time.Second, Budget: 90 * time.Second})
+		desc := fmt.Sprintf("slot=%d %s seed=%v %s strict=%v schedule=%s directed=[%s]", slot, txh.PlacementNames[placement], seed, renderProgs(progs), strict, renderSchedRLE(schedule), renderSegs(directed))
 		if s.TimedOut {
 			rec.Discard()
 			return
@@ -146,13 +247,25 @@ func TestC04_DisjointWritersBothCommit(t *testing.T) {
 			rec.Exclude("a commit was held back until no other transaction was in the middle of its operations (known finding: inconsistent snapshot while others commit)")
 		}
 		want := models[0].Clone()
-		merged, refused, missed := false, false, false
+		merged, refused, missed, mergedTwice := false, false, false, false
 		for i, r := range res {
 			if r.OpErr != nil {
 				t.Fatalf("writer p%d: operation failed: %v\n%s", i, r.OpErr, desc)
 			}
+			if !r.Committed && knownStale && r.CommitErr != nil && strings.Contains(r.CommitErr.Error(), "refetchAndMergeModifications failed to find item with key") && mergePasses(r) >= 2 && mixesShiftsAndPointers(progs[i]) {
+				// second refetch-and-merge pass: the first pass re-tracked the reads/updates with pointers into the refetched
+				// node and then replayed the adds/removes (map order), shifting those slots - the recorded finding again
+				rec.Exclude("a writer mixing adds/removes with reads/updates failed in its second refetch-and-merge pass (known finding: stale tracked item pointer)")
+				return
+			}
+			if !r.Committed && knownMixture && r.CommitErr != nil && strings.Contains(r.CommitErr.Error(), "refetchAndMergeModifications failed to") && s.OthersMutatedRegistryDuringLastMerge(i) {
+				// the refetch-and-merge pass re-reads the tree node by node; another writer's commit changed the registry
+				// in the middle of it, so the pass navigated a mixture of old and new nodes and missed an existing item
+				rec.Exclude("another writer's commit wrote the registry in the middle of this writer's refetch-and-merge pass (known finding: merge pass navigates a mixture of old and new nodes)")
+				return
+			}
 			if !r.Committed {
-				t.Fatalf("writer p%d with keys disjoint from the others did not commit: %v\n%s", i, r.CommitErr, desc)
+				t.Fatalf("writer p%d with keys disjoint from the others did not commit (merge passes %d): %v\n%s", i, mergePasses(r), r.CommitErr, desc)
 			}
 			for _, o := range r.Obs {
 				switch o.Op.Kind {
@@ -186,10 +299,15 @@ func TestC04_DisjointWritersBothCommit(t *testing.T) {
 					}
 				}
 			}
+			passes := 0
 			for _, c := range r.Trace {
 				if c.Comp == "StoreRepository" && c.Method == "GetWithTTL" {
 					merged = true
+					passes++
 				}
+			}
+			if passes >= 2 {
+				mergedTwice = true
 			}
 		}
 		for i := range res {
@@ -207,12 +325,38 @@ func TestC04_DisjointWritersBothCommit(t *testing.T) {
 		if err != nil {
 			t.Fatalf("fresh reader after all writers committed: %v\n%s", err, desc)
 		}
+		if why := txh.CheckDump(d, stores, []*txh.Model{want}); why != "" && knownMixture {
+			for i := range res {
+				if s.OthersMutatedRegistryDuringLastMerge(i) {
+					rec.Exclude("another writer's commit wrote the registry in the middle of a writer's last refetch-and-merge pass and the committed store is wrong (known finding: merge pass navigates a mixture of old and new nodes)")
+					return
+				}
+			}
+		}
 		if why := txh.CheckDump(d, stores, []*txh.Model{want}); why != "" {
-			t.Fatalf("all writers committed but %s\n%s", why, desc)
+			info := ""
+			for i := range res {
+				info += fmt.Sprintf(" p%d: merge passes %d, registry written by others during its last pass: %v;", i, mergePasses(res[i]), s.OthersMutatedRegistryDuringLastMerge(i))
+			}
+			if os.Getenv("VERIF_DEBUG") != "" {
+				for _, st := range s.Timeline {
+					fmt.Printf("TL p%d %s\n", st.P, st.Site)
+				}
+			}
+			t.Fatalf("all writers committed but %s\n%s\n%s", why, desc, info)
 		}
 		labels := []string{fmt.Sprintf("writers%d", nw), fmt.Sprintf("slot%d", slot), txh.PlacementNames[placement]}
 		if merged {
 			labels = append(labels, "refetchAndMerge")
+		}
+		if mergedTwice {
+			labels = append(labels, "mergedTwiceOrMore")
+		}
+		if strict {
+			labels = append(labels, "starvationSchedule")
+		}
+		if len(directed) > 0 {
+			labels = append(labels, "directedSchedule")
 		}
 		if refused {
 			labels = append(labels, "nodeLockRetried")
@@ -226,6 +370,29 @@ func TestC04_DisjointWritersBothCommit(t *testing.T) {
 		rec.Case(desc, merged || refused, labels...)
 		rec.Sample("case", map[string]any{"case": desc, "switches": s.Switches, "yields": s.Yields})
 	})
+}
+
+func mergePasses(r txh.CResult) int {
+	n := 0
+	for _, c := range r.Trace {
+		if c.Comp == "StoreRepository" && c.Method == "GetWithTTL" {
+			n++
+		}
+	}
+	return n
+}
+
+func mixesShiftsAndPointers(p txh.TxnProg) bool {
+	shifts, pointers := false, false
+	for _, o := range p.Ops {
+		switch o.Kind {
+		case "add", "addIfNotExist", "upsert", "remove":
+			shifts = true
+		default:
+			pointers = true
+		}
+	}
+	return shifts && pointers
 }
 
 func intsTo(n int) []int {
@@ -296,4 +463,82 @@ func TestC04_Known_StaleTrackedPointer(t *testing.T) {
 		return
 	}
 	t.Fatalf("%s", what)
+}
+
+// TestC04_Regress_SecondMergePass: three writers update different items of one leaf; writer 0 is beaten
+// by writer 1 and then by writer 2, so its commit goes through refetch-and-merge twice. On the pinned
+// tree the second pass looked the item up under the new value ID the first pass had given it and the
+// commit failed with "failed to find item" (separate-segment and actively persisted stores); and a
+// writer that only ADDS lost its items when it needed a second pass (see known_findings.json, fixed).
+func TestC04_Regress_SecondMergePass(t *testing.T) {
+	twice := 0
+	for _, placement := range []int{0, 1, 3} {
+		for _, kind := range []string{"update", "add"} {
+			for gap := 0; gap <= 160; gap += 4 {
+				lead := 3 + 5*(gap/84)
+				gap := gap % 84
+				e, err := txh.NewEnv(1)
+				if err != nil {
+					t.Fatalf("HARNESS-ERROR %v", err)
+				}
+				txh.SeedUUIDs(uint64(1000 + gap))
+				stores := []txh.StoreOpts{{Name: "st0", Slot: 8, Unique: true, Placement: placement}}
+				models, err := seedStore(e, stores, [][]int{{10, 20, 30, 40}})
+				if err != nil {
+					t.Fatalf("HARNESS-ERROR %v", err)
+				}
+				var progs []txh.TxnProg
+				for w := 0; w < 3; w++ {
+					op := txh.Op{Kind: "update", K: 10 * (w + 1), Tag: fmt.Sprintf("w%d", w), Size: 10}
+					if kind == "add" {
+						op = txh.Op{Kind: "add", K: 100 + w, Tag: fmt.Sprintf("w%d", w), Size: 10}
+					}
+					progs = append(progs, txh.TxnProg{Mode: sop.ForWriting, End: "commit", Ops: []txh.Op{op}})
+				}
+				var sched []int
+				rep := func(who, k int) {
+					for j := 0; j < k; j++ {
+						sched = append(sched, who)
+					}
+				}
+				rep(0, lead)
+				rep(1, 400)
+				rep(0, gap)
+				rep(2, 400)
+				res, s := e.RunConcurrent(stores, progs, sched, txh.ConcOpts{Strict: true, MaxTime: 15 * time.Second, Budget: 60 * time.Second})
+				if s.TimedOut {
+					e.Cleanup()
+					continue
+				}
+				want := models[0].Clone()
+				for i, r := range res {
+					if !r.Committed {
+						t.Fatalf("placement %s, %s, gap %d: writer %d (merge passes %d) did not commit: %v", txh.PlacementNames[placement], kind, gap, i, mergePasses(r), r.CommitErr)
+					}
+					for _, o := range r.Obs {
+						if kind == "add" {
+							want.Add(o.Op.K, o.Wrote)
+						} else {
+							want.SetUnique(o.Op.K, o.Wrote)
+						}
+					}
+					if mergePasses(r) >= 2 {
+						twice++
+					}
+				}
+				d, err := e.Dump(stores, sop.ForReading)
+				if err != nil {
+					t.Fatalf("placement %s, %s, gap %d: reader: %v", txh.PlacementNames[placement], kind, gap, err)
+				}
+				if why := txh.CheckDump(d, stores, []*txh.Model{want}); why != "" {
+					t.Fatalf("placement %s, %s, gap %d: all writers committed but %s", txh.PlacementNames[placement], kind, gap, why)
+				}
+				e.Cleanup()
+			}
+		}
+	}
+	if twice == 0 {
+		t.Fatalf("HARNESS-ERROR no writer went through two merge passes")
+	}
+	t.Logf("writers with >= 2 merge passes: %d", twice)
 }
